@@ -776,11 +776,14 @@ def local_none(ctx, R, reach):
             for nm, l in _none_test(t):
                 if nm in names and l == lab:
                     out.add(nm)
-            if isinstance(t, ast.Compare) and len(t.ops) == 1 and isinstance(t.left, ast.Name) and t.left.id in witness:
-                v, e0 = witness[t.left.id]
-                if ntext(t.comparators[0]) == e0:
-                    if (isinstance(t.ops[0], (ast.NotEq, ast.IsNot)) and lab is True) or (isinstance(t.ops[0], (ast.Eq, ast.Is)) and lab is False):
-                        out.add(v)
+            if isinstance(t, ast.Compare) and len(t.ops) == 1:
+                # `w != E0` or, mirrored, `E0 != w`
+                for wn, other in ((t.left, t.comparators[0]), (t.comparators[0], t.left)):
+                    if isinstance(wn, ast.Name) and wn.id in witness:
+                        v, e0 = witness[wn.id]
+                        if ntext(other) == e0:
+                            if (isinstance(t.ops[0], (ast.NotEq, ast.IsNot)) and lab is True) or (isinstance(t.ops[0], (ast.Eq, ast.Is)) and lab is False):
+                                out.add(v)
             if isinstance(t, ast.BoolOp) and isinstance(t.op, ast.And) and lab is True:
                 for x in t.values:
                     out |= facts(x, True)
